@@ -50,6 +50,23 @@ CLAIMED = {
         "Does not decide value domains (huge ints, Decimal text, time zones, microseconds).",
         "Trusted: Python class lattice of the stdlib types, lxml attribute storage; codec value behaviour is only partly covered (C18).",
         "DESIGN.md §4 C06"),
+    "C07": (
+        "who-may-write rule with control-dependence on the guard constant; table-object-model width-sync obligation; CFG dominance on append_row; regex AST tabulation (re._parser) against a frozen spec table; exact folding of the forbidden named-range character set",
+        "Partial, structural. Decides that the repeat attributes are written only by the three _set_repeated methods and only under "
+        "not(repeated is None or repeated < 2); that every live row that may have gained cells reaches a width-sync event before a public Table "
+        "method returns; that appending the first row declares the columns at child position 0; that height/width are the last map entry + 1; and "
+        "that the accepted table names and named-range names are exactly those of the frozen spec tables. "
+        "'Rows contain only cells' for documents built outside the API and shapes reachable only through arithmetic errors are not decided.",
+        "Trusted: the frozen table of characters office applications reject in sheet names; TOM's recognition of the width-sync idiom.",
+        "DESIGN.md §4 C07"),
+    "C08": (
+        "abstract interpretation (table object model escape analysis with default flags, coordinate-stamp tracking); structural sibling comparison of the expanding traversals; outside-area arm checks",
+        "Partial, structural. Decides for the 16 getters documented as returning copies that every returned or yielded wrapper is a clone or a new "
+        "object under the default flags, through all inlined helpers, and carries its coordinates; that both expanding traversals clone, stamp, "
+        "clear the repeat (run > 1 or range starting inside a run, tested on the stamped x) and only then advance; and that reads outside the "
+        "populated area return a fresh empty object and call nothing else. Coordinate values, ranges and filters are not decided.",
+        "Trusted: Element.clone deep-copies (R10c); maps consistent with the XML (C02).",
+        "DESIGN.md §4 C08"),
     "C12": (
         "whole-registry static enumeration: registry replica in import order, PropDef/define pairing, constructor-argument flow by three-valued abstract execution, keyword-acceptance chains along the MRO, store-target resolution, getter/setter attribute agreement, namespace-prefix resolution",
         "Partial, structural, over the whole registry (not a sample): every Element subclass is registered once with an effective tag and is reachable "
@@ -76,6 +93,15 @@ CLAIMED = {
         "every run. Does not decide XPath's own matching semantics nor which attribute each setter uses beyond make_xpath_query's table.",
         "Trusted: lxml XPath evaluation; XPath 1.0 has no escape inside literals; callees resolved by name for derived sinks (only unambiguous names).",
         "DESIGN.md §4 C14"),
+    "C17": (
+        "CFG dominance/control-dependence on set_span; set_span/del_span table agreement; guard analysis of the strip loops; table-object-model end state of the bulk edits",
+        "Partial, structural. Decides that set_span checks the whole area for an existing span before any write and changes values only under "
+        "merge; that set_span and del_span write/remove the same attributes, swap the same tag pair over the same cells and push back with the same "
+        "call; that span extents are (z-x+1, t-y+1); that every row/cell deletion of the strip functions is control-dependent on an emptiness test "
+        "of that item (or a counter fed only by such tests) in a reversed scan that stops at the first non-empty item; and that the bulk edits end "
+        "with restored caches. Involution, idempotence, value preservation and the CSV round trip are not decided.",
+        "Trusted: is_empty/is_spanned semantics; set_cells placement (C01).",
+        "DESIGN.md §4 C17"),
     "C18": (
         "ast table extraction and comparison: decoder dispatch exhaustiveness, encoder/decoder literal, designator and unit tables, exhaustive validation of the literal colour table",
         "Partial, structural. Decides that decoders reject unknown characters (dispatch ends in a raising arm), that the literals/designators/"
